@@ -1,12 +1,22 @@
 /-
   C09 — thinking time never exceeds what the mover's clock allows.
   The slice is computed over an exact integer model of IEEE-754 binary64 (Model/Time.lean).
-  Proved: `slice_mover_only`; `slice_le_u128`; the saturation / no-clock branch structure.
-  Not proved yet (decided on the boundary lattice and 10^4..10^6 random i128 inputs by an exact
-  rational oracle): `slice_le_clock`, `slice_bound` (80% share) — they need the rounding lemmas
-  (monotonicity and 2^-53 relative error of `round53`).
+  Proved: `slice_mover_only`; `slice_le_u128`; the saturation / no-clock branch structure; and, over ℚ
+  with the rounding theory of Proofs/Float.lean (`round53` has relative error ≤ 2^-53, keeps the sign,
+  is exact on integers below 2^53; `f64::round` is at most ½ above its argument), for ALL integer clocks
+  and increments (negative, zero, tiny, huge — no size bound) and every moves-to-go from 1 to 2^32-1 or
+  absent (then 30):
+    * `slice_never_exceeds_clock`: slice ≤ max(clock, 0) of the side to move;
+    * `slice_at_most_80_percent_share`: clock > 100 ⇒ slice ≤ 4/5 · (clock − 100) / mtg · (1 + 2^-50) + ½
+      (binary64 rounding and rounding to whole milliseconds);
+    * `slice_zero_without_clock_and_increment`: clock ≤ 100 and increment ≤ 0 ⇒ slice = 0.
+  The constants 100 ms, 30 moves, 0.8 come from the source through the translator (Generated/Consts);
+  the statements spell the numbers out, so a changed constant breaks the proofs.
+  Only these proof files import Mathlib modules (ℚ as an ordered field, linarith/nlinarith/positivity/
+  norm_num/field_simp); the model is core-only.
 -/
 import Walleye.Model.Time
+import Walleye.Proofs.SliceBound
 namespace Walleye
 
 /-- the slice is a function of the mover's own clock, increment and movestogo only -/
@@ -47,5 +57,33 @@ example : calculateTimeSlice { wtime := 1000, btime := 7 } .white = 24 := by dec
 example : calculateTimeSlice { wtime := 50, winc := 1000 } .white = 50 := by decide +kernel
 example : calculateTimeSlice { wtime := 100, winc := 0 } .white = 0 := by decide +kernel
 example : calculateTimeSlice { btime := 60100, movestogo := some 10 } .black = 4800 := by decide +kernel
+
+/-- moves to go as the code reads them: the given number, or 30 -/
+def movesToGo (gt : GameTime) : Nat := gt.movestogo.getD 30
+
+/-- **C09**: the planned time never exceeds the mover's remaining clock -/
+theorem slice_never_exceeds_clock (gt : GameTime) (c : Color) (hm : 1 ≤ movesToGo gt) (hm32 : movesToGo gt < 2 ^ 32) :
+    ((calculateTimeSlice gt c : Nat) : Int) ≤ max (moverClock gt c) 0 := by
+  rw [calculateTimeSlice_eq]
+  exact slice_le_clock _ _ _ hm hm32
+
+/-- **C09**: with more than the 100 ms margin left the plan is at most 80 % of (clock − margin) divided
+    by the moves to go (30 when not told), up to binary64 rounding and whole-millisecond rounding -/
+theorem slice_at_most_80_percent_share (gt : GameTime) (c : Color) (hc : 100 < moverClock gt c)
+    (hm : 1 ≤ movesToGo gt) (hm32 : movesToGo gt < 2 ^ 32) :
+    ((calculateTimeSlice gt c : Nat) : ℚ) ≤
+      4 / 5 * ((moverClock gt c : ℚ) - 100) / (movesToGo gt : ℚ) * (1 + 1 / 2 ^ 50) + 1 / 2 := by
+  rw [calculateTimeSlice_eq]
+  exact slice_share _ _ _ (by omega) hm hm32
+
+/-- **C09**: no usable clock and no increment ⇒ zero -/
+theorem slice_zero_without_clock_and_increment (gt : GameTime) (c : Color) (hc : moverClock gt c ≤ 100)
+    (hi : moverInc gt c ≤ 0) : calculateTimeSlice gt c = 0 := by
+  rw [calculateTimeSlice_eq]
+  exact slice_zero _ _ _ hc hi
+
+/-- the premises are satisfiable, and huge values are covered: an i128-sized clock -/
+example : (1 : Nat) ≤ movesToGo { wtime := 2 ^ 126 } ∧ movesToGo { wtime := 2 ^ 126 } < 2 ^ 32 ∧
+    (100 : Int) < moverClock { wtime := 2 ^ 126 } .white := by decide
 
 end Walleye
